@@ -18,6 +18,7 @@ from ..runner import Acc
 from .. import logmode
 
 PROPERTY = "C02"
+DEBUGLOG_EVERY = 7  # the receive path logs every read: DEBUG shards cost several times the plain ones
 LEVEL = "exploration"
 RULE = (
     "Cases are (byte stream, partition into read chunks) pairs.  Streams: (a) every string up to "
@@ -55,6 +56,10 @@ def macro_symbols():
         R.encode_data(1, 0, 0, R.randomize(resv + resv)),  # randomised field = reserved bytes -> stuffed
         R.encode_ack(1), R.encode_nak(0), R.encode_rst(), R.encode_rstack(0x0B), R.encode_rstack(0x02),
         R.encode_error(0x51),
+        # numeric boundaries: reset / error code 0x00, a data field of exactly 256 bytes (accepted) and
+        # of 257 bytes (over the limit: rejected like any malformed frame, whatever its CRC says)
+        R.encode_error(0x00), R.encode_rstack(0x00),
+        R.encode_data(0, 0, 0, bytes(range(256))), R.encode_data(0, 0, 0, bytes(range(256)) + b"!"),
     ]
     f = R.encode_data(0, 0, 0, R.randomize(resv))
     frag = [f[:3], f[3:], f[:-1], R.wire(R.raw_data(0, 0, 0, b"q")[:-1] + b"\x00")]  # last = bad CRC
@@ -226,7 +231,7 @@ def mutate(rnd: random.Random) -> bytes:
     parts = []
     for _ in range(rnd.randrange(1, 6)):
         r = rnd.random()
-        plen = rnd.choice([0, 1, 2, 3, 5, 8, 20, 60])
+        plen = rnd.choice([0, 1, 2, 3, 5, 8, 20, 60, 60, 128, 129, 200, 256, 257, 300])
         payload = bytes(rnd.choice(list(R.RESERVED) + [0x00, 0x5E, 0xFF]) if rnd.random() < 0.4
                         else rnd.randrange(256) for _ in range(plen))
         if r < 0.5:
@@ -239,10 +244,10 @@ def mutate(rnd: random.Random) -> bytes:
         elif r < 0.85:
             parts.append(R.encode_nak(rnd.randrange(8)))
         elif r < 0.92:
-            parts.append(R.encode_rstack(rnd.choice([0x0B, 0x02, 0x00, 0x7E, 0x11])))
+            parts.append(R.encode_rstack(rnd.choice([0x0B, 0x02, 0x00, 0x7E, 0x11, 0xFF])))
             rx = 0
         elif r < 0.97:
-            parts.append(R.encode_error(rnd.choice([0x51, 0x52, 0x1A])))
+            parts.append(R.encode_error(rnd.choice([0x51, 0x52, 0x1A, 0x00, 0xFF])))
         else:
             parts.append(R.encode_rst())
     b = bytearray(b"".join(parts))
